@@ -51,21 +51,28 @@ func (c *Config) verify() error {
 	return nil
 }
 
-// Verifies the configuration as it would be read back from the config file, i.e. without any
-// command-line overwrites. verify() only sees the effective values, so a stored value that is
-// masked by an overwrite would otherwise never be checked until the next start without the flag.
-func (c *Config) verifyStored() error {
+// A separate configuration holding what is stored now (command-line overwrites left out) with an
+// update applied, verified. Nobody listens to it: it exists to be checked and written to the file.
+func (c *Config) storedCopyWith(updates map[string]any) (*Config, error) {
 	data, err := json.Marshal(c)
 	if err != nil {
-		return fmt.Errorf("failed to encode config for verification: %w", err)
+		return nil, fmt.Errorf("failed to encode config: %w", err)
 	}
-
 	var stored Config
 	if err := json.Unmarshal(data, &stored); err != nil {
-		return fmt.Errorf("stored config would not load: %w", err)
+		return nil, fmt.Errorf("stored config would not load: %w", err)
 	}
-
-	return stored.verify()
+	staged, err := setPropsFromMap(&stored, updates)
+	if err != nil {
+		return nil, err
+	}
+	for _, prop := range staged {
+		prop.CommitStaged()
+	}
+	if err := stored.verify(); err != nil {
+		return nil, err
+	}
+	return &stored, nil
 }
 
 func checkIsSetRecursive(val reflect.Value) error {
